@@ -4,8 +4,12 @@ import (
 	"encoding/json"
 	"fmt"
 	"net/url"
+	"os"
+	"path"
+	"path/filepath"
 	"sort"
 	"strings"
+	"time"
 
 	"github.com/go-openapi/spec"
 
@@ -463,7 +467,61 @@ func jsonOf(x interface{}) string {
 // c10SharedCache: a caller-owned cache that lives across all roots of a C10 run.
 var c10SharedCache = newTCache(&tracer{})
 
+// c10RelativeBases: the entry points that take a base LOCATION (ExpandParameter, ExpandResponse,
+// ExpandSchemaWithBasePath), handed a location relative to the working directory, with a directory component: same
+// answer as with the canonical spelling of that location - in particular the same cycle cuts, after bounded work
+// (child processes: a missed cycle ends in a fatal stack overflow).
+func c10RelativeBases(c *Ctx) {
+	cwd, err := os.Getwd()
+	if err != nil {
+		return
+	}
+	canon := (&url.URL{Scheme: "file", Path: path.Join(filepath.ToSlash(cwd), "vtmp/api/v1/root.json")}).String()
+	w := &refgraph.World{Root: canon, Docs: map[string]wire.V{canon: wire.MustParse(`{"swagger":"2.0","info":{"title":"t","version":"1"},"paths":{},
+		"definitions":{"node":{"type":"object","properties":{"next":{"$ref":"#/definitions/node"},"leaf":{"$ref":"#/definitions/leaf"}}},"leaf":{"type":"string"}},
+		"parameters":{"pc":{"name":"b","in":"body","schema":{"$ref":"#/definitions/node"}},"pa":{"name":"a","in":"body","schema":{"$ref":"#/definitions/leaf"}}},
+		"responses":{"rc":{"description":"d","schema":{"type":"array","items":{"$ref":"#/definitions/node"}}}}}`)}}
+	calls := []entryCall{{Entry: "param", Path: []string{"parameters", "pc"}}, {Entry: "param", Path: []string{"parameters", "pa"}},
+		{Entry: "resp", Path: []string{"responses", "rc"}}, {Entry: "schemaWithBase", Path: []string{"definitions", "node"}}}
+	spellings := []string{canon, "vtmp/api/v1/root.json", "./vtmp/api/v1/root.json", "vtmp/api/../api/v1/root.json", path.Join(filepath.ToSlash(cwd), "vtmp/api/v1/root.json")}
+	var jobs []histCall
+	for _, sp := range spellings {
+		for _, call := range calls {
+			call.Base = sp
+			jobs = append(jobs, histCall{World: worldJSON(w), Call: call})
+		}
+	}
+	outs := runChildren(jobs, 10*time.Second)
+	render := func(o childOutcome) string {
+		switch {
+		case o.killed:
+			return "did not return within 10 s"
+		case o.err != nil:
+			return "process died: " + clip(o.err.Error())
+		case o.r.Panic != "":
+			return "panic: " + o.r.Panic
+		case o.r.Err != "":
+			return "error: " + o.r.Err
+		}
+		return o.r.Out
+	}
+	for i := len(calls); i < len(jobs); i++ {
+		want, got := render(outs[i%len(calls)]), render(outs[i])
+		c.Count(fmt.Sprint("relative-base", jobs[i].Call), true)
+		c.Hit("relative-base-location")
+		if want != got {
+			sig := "C10:depends-on-spelling-of-base"
+			if outs[i].killed || outs[i].err != nil {
+				sig = "C04:panic"
+			}
+			c.Fail(Failure{Kind: "oracle", Sig: sig, What: fmt.Sprintf("%s on /%s with the base location spelled %q: %s; with the canonical spelling: %s", jobs[i].Call.Entry, strings.Join(jobs[i].Call.Path, "/"), jobs[i].Call.Base, short(got, 400), short(want, 400)),
+				Case: map[string]interface{}{"world": worldJSON(w), "call": jobs[i].Call}})
+		}
+	}
+}
+
 func runC10(c *Ctx) {
+	c10RelativeBases(c)
 	c.Res.Rule = "every definition, parameter and response of random roots (single-document for the *WithRoot / ExpandSchema entry points, multi-document for ExpandSchemaWithBasePath / ExpandParameter / ExpandResponse), expanded through each entry point with a typed root, a generic (map) root, a nil root plus base location, and a pre-filled cache; oracle: the result denotes the same tree as the element in the context of the root (independent unfolding to depth 6), remaining $refs resolve against the root and lie on a cycle, the root document (JSON before/after) and the option structure are unchanged; the proved-sound checker must accept every result; non-trivial = element with at least one reference; distinct by (world, element, entry point)"
 	n := c.N(120, 3000)
 	fams := cacheFamilies()
